@@ -111,6 +111,16 @@ def aug : R String := do
   let a := augmentWithNoise b Q
   pure (join ("ok" :: outFam a.mean ++ outFamM a.cov))
 
+/-- augns lin k r c means covs Q(r × c) -> "ok" 1 dim | "ok" 0   (the guard of augmentWithNoise) -/
+def augns : R String := do
+  let nx ← nat; let k ← nat; let r ← nat; let c ← nat
+  let b ← readGM nx k
+  let Q ← matCM ratq r c
+  done
+  match augmentWithNoiseChecked b Q with
+  | none => pure "ok 0"
+  | some _ => pure s!"ok 1 {nx + r}"
+
 def outOpt {nx ny k : Nat} (o : Option (UTOut Rat nx ny k)) : String :=
   match o with
   | none => "ok 0"
@@ -284,6 +294,7 @@ def handle (op : String) (args : List String) : Option String :=
   | "utw" => some ((run utw args).getD "bad-args")
   | "utwd" => some ((run utwd args).getD "bad-args")
   | "aug" => some ((run aug args).getD "bad-args")
+  | "augns" => some ((run augns args).getD "bad-args")
   | "utf" => some ((run utf args).getD "bad-args")
   | "uukfp" => some ((run uukfp args).getD "bad-args")
   | "uukfc" => some ((run uukfc args).getD "bad-args")
